@@ -63,8 +63,10 @@ pub fn run(rep: &mut Report, tier: &str)
     let thorough = tier == "thorough";
     // adversarial near-misses: a string moved across a section boundary, ':' and spaces inside
     // names, split / merged command lines, permuted lists
-    let sigma: Vec<&str> = if thorough { vec!["a", "b", "a b", "a:", ":a", "a/b", ";", "\ta"] } else { vec!["a", "b", "a b", "a:", ":a", "a/b"] };
+    // "a " (trailing blank): a different string from "a" that a tolerant line reader would merge with it
+    let sigma: Vec<&str> = if thorough { vec!["a", "b", "a b", "a:", ":a", "a/b", "a ", ";", "\ta"] } else { vec!["a", "b", "a b", "a:", ":a", "a/b", "a "] };
     let path_sigma: Vec<&str> = sigma.iter().cloned().filter(|s| *s != ";" && !s.starts_with('\t')).collect();
+    let long_sigma: Vec<&str> = path_sigma.iter().cloned().filter(|s| *s != "a ").collect();
     let ts = lists(&path_sigma, 2, false, true);
     let ss = lists(&path_sigma, 2, false, true);
     let cs = lists(&sigma, 3, true, false);
@@ -76,6 +78,7 @@ pub fn run(rep: &mut Report, tier: &str)
     let mut first_of_ticket: HashMap<String, Rule> = HashMap::new();
     for t in &ts
     {
+        let _w = crate::watch::item(|| (format!("identity of the rules with targets {:?} (all source and command lists)", t), json!({"engine": "ident", "a": {"t": t, "s": ["a"], "c": []}, "b": {"t": t, "s": ["a"], "c": []}})));
         for s in &ss
         {
             for c in &cs
@@ -110,7 +113,7 @@ pub fn run(rep: &mut Report, tier: &str)
     // which names the rule's history file) must both be functions of the canonical form alone
     let mut long_n = 0u64;
     {
-        let tl = lists(&path_sigma, 4, false, true);
+        let tl = lists(&long_sigma, 4, false, true);
         let chunks: Vec<&[Vec<String>]> = tl.chunks((tl.len() + 15) / 16).collect();
         let results: Vec<(u64, Vec<(String, Rule, Rule)>)> = std::thread::scope(|sc|
         {
@@ -123,6 +126,7 @@ pub fn run(rep: &mut Report, tier: &str)
                     let mut bad: Vec<(String, Rule, Rule)> = vec![];
                     for t in chunk.iter()
                     {
+                        let _w = crate::watch::item(|| (format!("identity (directly and through the sorter) of the rules with targets {:?}", t), json!({"engine": "ident", "a": {"t": t, "s": ["zz"], "c": []}, "b": {"t": t, "s": ["zz"], "c": []}})));
                         let mut t_sorted = t.clone();
                         t_sorted.sort();
                         for s in tl.iter()
@@ -181,6 +185,7 @@ pub fn run(rep: &mut Report, tier: &str)
                 let mut rev = r.clone();
                 rev.targets.reverse();
                 rev.sources.reverse();
+                let _w = crate::watch::item(|| (format!("parsing the rule {:?}", render(&r)), json!({"engine": "parse", "text": render(&r)})));
                 let p1 = rule::parse("f".into(), render(&r));
                 let p2 = rule::parse("f".into(), render(&rev));
                 parsed += 2;
